@@ -335,7 +335,8 @@ class Analysis:
             Updated index value, relation list, and an exit flag.
         """
         logger.debug('Computing Relation: unary')
-        tgt, right, op = node.lvalue, node.rvalue.expr, node.rvalue.op
+        tgt, op = node.lvalue, node.rvalue.op
+        right = Analysis.rm_cast(node.rvalue.expr)
         init = f'{pr.to_c(node, True)} ==> '
         new_node = None
 
